@@ -32,14 +32,28 @@ def verify(sid):
         rc, out = sh("go build ./...", wt)
         res["builds"] = rc == 0
         if rc: res["error"] = "build: "+out[-400:]; return res
-        demos = [f for f in os.listdir(d) if f.endswith("_test.go")]
+        # demonstration files: top level (placed by their package clause) or in a sub-directory named like the package dir
+        demos = []  # (source path, package dir)
+        for root, _, files in os.walk(d):
+            for f in files:
+                if f.endswith("_test.go"):
+                    src = os.path.join(root, f)
+                    rel = os.path.relpath(root, d)
+                    if rel != ".":
+                        demos.append((src, rel)); continue
+                    pk = re.search(r"^package\s+(\w+)", open(src).read(), re.M).group(1)
+                    demos.append((src, pk[:-5] if pk.endswith("_test") else pk))
         cmdline = None
         for l in open(os.path.join(d,"demo_cmd.txt")):
             if "go test" in l and not l.strip().startswith("#"):
-                cmdline = l.strip(); break
+                cmdline = l.split(" #")[0].strip(); break
         m = re.search(r"(go test[^&;|]*)", cmdline or "")
         gocmd = m.group(1).strip() if m else None
         pkg = gocmd.split()[-1] if gocmd else None
+        def put():
+            for src, pd in demos: shutil.copy(src, os.path.join(wt, pd, os.path.basename(src)))
+        def unput():
+            for src, pd in demos: os.remove(os.path.join(wt, pd, os.path.basename(src)))
         res["demo_cmd"] = gocmd
         if not gocmd or not pkg.startswith("./"):
             res["error"] = "no demo command"; return res
@@ -50,16 +64,16 @@ def verify(sid):
         res["check_exit"] = rc
         res["check_rules"] = sorted(set(re.findall(r"rule=(\S+)", out)))
         res["check_keys"] = re.findall(r'key="([^"]+)"', out)[:6]
-        for f in demos: shutil.copy(os.path.join(d,f), os.path.join(wt,pkg,f))
+        put()
         rc, out = sh(gocmd, wt, timeout=600)
         res["demo_with_change_exit"] = rc
         res["demo_with_change_tail"] = out[-600:]
-        for f in demos: os.remove(os.path.join(wt,pkg,f))
+        unput()
         rc, out = sh(["python3","/verif/tools/baseline.py",wt], wt, timeout=1500)
         res["baseline_ok"] = rc == 0
         res["baseline_line"] = out.splitlines()[0] if out else ""
         rc, out = sh(["git","apply","-R",os.path.join(d,"patch.diff")], wt)
-        for f in demos: shutil.copy(os.path.join(d,f), os.path.join(wt,pkg,f))
+        put()
         rc, out = sh(gocmd, wt, timeout=600)
         res["demo_without_change_exit"] = rc
         res["demo_without_tail"] = out[-300:]
